@@ -106,9 +106,11 @@ func (w *PackWriter) Write(p []byte) (int, error) {
 
 // Close closes all the file descriptors and save the final packfile, if nothing
 // was written, the tempfiles are deleted without writing a packfile.
-func (w *PackWriter) Close() error {
+func (w *PackWriter) Close() (err error) {
 	defer func() {
-		if w.Notify != nil && w.writer != nil && w.writer.Finished() {
+		// Only a pack that is in place is announced: the index of a pack
+		// that could not be saved would answer for objects nobody can read.
+		if err == nil && w.Notify != nil && w.writer != nil && w.writer.Finished() {
 			w.Notify(w.checksum, w.writer)
 		}
 
